@@ -250,3 +250,14 @@ Proof.
   split; [vm_compute; reflexivity|].
   simpl. repeat apply Forall_cons; try apply Forall_nil; (split; [simpl; try exact I; lia|vm_compute; discriminate]).
 Qed.
+
+(** the three repaired defects: the sets that made a handler abort are now rejected by validation
+    (the abort points are still in the model: they are what the rejected sets WOULD reach) *)
+Example c16_fixed_defects :
+  let f := mkFm (mkCoin 1 (Some 5000)) 2 (Some 2000000000000000000) in
+  let c := mkCs (Some 3000000000000000) (mkCoin 3 (Some 5000)) (Some 400000000000000000) (Some 2000000000000000) in
+  let t := mkTk (Some 400000000000000000) (mkCoin 0 (Some 60000)) (Some 100000000000000000) true 0 in
+  validate_fm f = Rej /\ fm_path f (FmCreatePool 1 1000000) = Some (Panic 206)
+  /\ validate_cs c = Rej /\ cs_path c (CsCreatePool 1000000 0 1000000 10 10) = Some (Panic 104)
+  /\ validate_tk t = Rej /\ tk_path t (TkIssue P18 1000000) = Some (Panic 504).
+Proof. cbv zeta. repeat split; vm_compute; reflexivity. Qed.
